@@ -908,6 +908,10 @@ def cfg_cases(ctx, inv, quick_prios=3):
         n += 1
     for k, c in enumerate(cases):
         if k % 3 == 1 and not _has_prefix(c["recipe"]) and "via" not in c: c["via"] = "json"          # StingyConfigurator.from_json(recipe document)
+        elif k % 7 == 3 and "via" not in c:
+            c["style"] = 1; ctx.region("items_of_a_variable_sub_class")                                # items are instances of a puan.variable sub class
+        elif k % 5 == 2 and "via" not in c and c["recipe"]["id"] and len(c["recipe"]["a"]) >= 2:
+            c["via_add"] = True; ctx.region("built_by_add_after_queries")                              # all rules but the last, queried, then add(last rule)
     return cases
 
 def _rename(r, prefix, memo=None):
